@@ -376,6 +376,19 @@ def sub_addr(case):
                 judge('Address(data)', st, enc, pub, ok, got, det)
                 ok, got = _call(lambda: Address(pub.hex(), script_type=st, encoding=enc, network=net).address)
                 judge('Address(data_hex)', st, enc, pub, ok, got, det)
+        # the encoding argument left out: the object derives it from the script type; the address must be the one
+        # the same call gives with that encoding spelled out (and is then judged like it)
+        for st, enc in STD:
+            for form, data in (('data', pub), ('data_hex', pub.hex())):
+                ok, got = _call(lambda: (lambda a: (a.address, a.encoding))(Address(data, script_type=st, network=net)))
+                if ok:
+                    got, enc_derived = got
+                    if enc_derived != enc:
+                        n += 1
+                        dev('Address(%s,encoding_omitted)|%s|derived_encoding_%s' % (form, st, enc_derived),
+                            dict(det, got=got))
+                        continue
+                judge('Address(%s,encoding_omitted)' % form, st, enc, pub, ok, got, det)
         # HDKey defaults per witness type
         for wt, (st, enc) in (('legacy', STD[0]), ('p2sh-segwit', STD[1]), ('segwit', STD[2])):
             ok, got = _call(lambda: HDKey(d, network=net, compressed=c, witness_type=wt).address())
